@@ -86,6 +86,14 @@ class FakeReader:
         self.pos += k
         return out
 
+    def at_eof(self):
+        """StreamReader.at_eof(): EOF was fed and the buffer is empty. The peer closes right behind the last octet it sends (the case a reply followed by a
+        close produces), so this is true as soon as everything has been consumed"""
+        return self.pos >= self.end
+
+    async def readuntil(self, separator=b"\n"):
+        raise NotImplementedError("readuntil is not part of the modelled contract")
+
     async def readexactly(self, n):
         if self.end - self.pos < n:
             part = self.data[self.pos : self.end]
